@@ -159,6 +159,35 @@ fn check_tape(tape: &[u8], gates: &Gates, stats: &mut Stats, counting: bool, cli
     let ftape: Vec<u8> = t.to_vec();
     let mut ft = Tape::new(&ftape);
     let base = gen_unit(&mut ft, gates, &fp);
+    // a valid declaration that is written twice, each copy alone in its own file: nothing is wrong
+    // with either file, the set must still be diagnosed (duplicate name), in every file order
+    if choice.ratio(1, 8) && !base.lib.elements.is_empty() && gates.want("VALID_DECLARATION_IN_TWO_FILES") {
+        let chunks = chunks_of(&base.lib, gates);
+        let d = chunks[choice.below(chunks.len())].clone();
+        let mut files: Vec<String> = companions.clone();
+        files.push(d.clone());
+        files.push(d.clone());
+        let n = files.len();
+        let perms = permutations(n, 24, &mut choice);
+        for perm in &perms {
+            let arranged: Vec<String> = perm.iter().map(|&i| files[i].clone()).collect();
+            let (ok, codes) = project_verdict(&arranged).map_err(|(k, d)| Failure::new("set", &k, d, json!({"files": arranged})))?;
+            if counting {
+                stats.case(true, hash_str(&arranged.join("\u{1}")));
+                stats.class("set.valid-declaration-in-two-files");
+            }
+            if ok || !codes.iter().any(|x| x == "P0019" || x == "P0020") {
+                return Err(Failure::new(
+                    "set",
+                    "same-name-collapsed",
+                    format!("one declaration is present in two files of the set; verdict ok={} codes {:?} (a duplicate-name diagnostic is required)", ok, codes),
+                    json!({"files": arranged, "kind": "valid-declaration-in-two-files"}),
+                ));
+            }
+        }
+        gates.take_wanted();
+        return Ok(());
+    }
     let faulty = match choice.below(6) {
         0 => {
             let mut s = chunks_of(&base.lib, gates).join("");
